@@ -158,10 +158,43 @@ def group_args(cfg, cache):
     return a
 
 
+def snapshot(h, classes):
+    """The tree as Trace_Cache sees it: per path identity, modification time (ms since the driver's epoch), length, content class."""
+    files = []
+    for root, _, names in os.walk(h.base):
+        for n in sorted(names):
+            p = os.path.join(root, n)
+            st = os.stat(p)
+            with open(p, "rb") as f:
+                d = lib.hashlib.sha256(f.read()).hexdigest()
+            files.append({"p": os.path.relpath(p, h.base), "ino": "%d:%d" % (st.st_dev, st.st_ino), "mt": int(st.st_mtime_ns // MS - lib.OLD_MTIME * 1000),
+                          "len": st.st_size, "cls": classes.setdefault(d, len(classes) + 1)})
+    return files
+
+
+def cache_events(h, trace):
+    evs = []
+    if not os.path.exists(trace):
+        return evs
+    for line in open(trace):
+        if '"CacheLookup"' in line or '"CacheStore"' in line:
+            e = json.loads(line)
+            rel = os.path.relpath(os.fsdecode(e["path"].encode("latin-1")), h.base)
+            o = {"ev": e["ev"], "p": rel, "pos": e["pos"], "len": e["len"]}
+            if e["ev"] == "CacheLookup":
+                o["hit"] = e["hit"]
+            else:
+                o["hash"] = e["hash"]
+            evs.append(o)
+    return evs
+
+
 def run_history(t):
     k, seed, steps, base_dir = t
     h = History(k, seed, base_dir)
-    out = {"k": k, "steps": [], "problems": [], "hits": 0, "lookups": 0, "compared": 0}
+    out = {"k": k, "steps": [], "problems": [], "hits": 0, "lookups": 0, "compared": 0, "trace": [{"ev": "Reset", "k": k}], "trace_steps": 0}
+    classes = {}
+    exact = True                   # no interrupted run so far: the specification knows every entry of the cache
     try:
         rng = random.Random(seed + 1)
         for s in range(steps):
@@ -177,10 +210,19 @@ def run_history(t):
                 # an interrupted cached run first: it may leave any subset of its entries behind
                 senv = lib.shim_env(envc, root=h.base, plan=f"read||{rng.randint(1, 6)}|killafter")
                 lib.run_fclones(group_args(cfg, True), h.work, senv, timeout=60)
+                exact = False          # whatever the killed run stored may or may not have reached the disk
                 if os.path.exists(trace):
                     os.remove(trace)
+            snap = snapshot(h, classes) if exact else None
             rc = lib.run_fclones(group_args(cfg, True), h.work, envc, timeout=60)
             ru = lib.run_fclones(group_args(cfg, False), h.work, env, timeout=60)
+            if exact and rc.rc == 0:
+                out["trace"].append({"ev": "Run", "k": k, "step": s, "table": "%s|%s" % (cfg.get("hash_fn", "metro"), cfg.get("transform_cmd", "")), "files": snap,
+                                     "edits": h.log[:], "cfg": cfg})
+                out["trace"] += cache_events(h, trace)
+                out["trace_steps"] += 1
+            elif rc.rc != 0:
+                exact = False
             step = {"edits": h.log[:], "cfg": cfg, "disk": disk, "rc": (rc.rc, ru.rc)}
             h.log.clear()
             out["steps"].append(step)
@@ -229,6 +271,37 @@ def main(tier):
             st = r["steps"][s]
             chk.violation(f"C12/{what} edits={'+'.join(st['edits']) or 'none'} cfg={json.dumps(st['cfg'], sort_keys=True)}",
                           f"`group --cache` and `group` disagree at step {s + 1} of the history: {detail}", r)
+    # the cache events of the same runs, history by history, against Trace_Cache.tla
+    tdir = lib.mkscratch("c12t", base=lib.BUILD)
+    try:
+        tf = os.path.join(tdir, "cache.ndjson")
+        nruns = 0
+        with open(tf, "w") as f:
+            for r in results:
+                if r["trace_steps"]:
+                    nruns += r["trace_steps"]
+                    for e in r["trace"]:
+                        f.write(json.dumps(e) + "\n")
+        if nruns:
+            problems, stats = lib.validate_traces("Trace_Cache.tla", "Trace_Cache.cfg", tf, max_problems=5, timeout=1800)
+            chk.cov["tlc_runs"].append({"config": "Trace_Cache(CacheLookup / CacheStore events of the real runs)", "distinct_states": stats["states"],
+                                        "states_generated": stats["generated"], "histories": stats["runs"], "runs": nruns, "events": stats["events"]})
+            chk.cov["states"] += stats["states"]
+            chk.cov["transitions"] += stats["generated"]
+            for p in problems:
+                runs_ = [e for e in p["run"] if e.get("ev") == "Run"]
+                ctx = {"k": p["run"][0].get("k") if p["run"] else None, "event": p["event"],
+                       "steps": [{"step": e["step"], "edits": e["edits"], "cfg": e["cfg"], "table": e["table"]} for e in runs_][-3:]}
+                if p["kind"] == "invariant" and p["name"] == "Sound":
+                    last = runs_[-1] if runs_ else {}
+                    chk.violation(f"C12/stale-hash-served edits={'+'.join(last.get('edits', [])) or 'none'} cfg={json.dumps(last.get('cfg', {}), sort_keys=True)}",
+                                  "the cache answered a lookup with the hash of other content: the entry was stored when the file held a different content class "
+                                  "(Sound of Trace_Cache.tla is false at " + json.dumps(p["event"]) + ")", ctx)
+                else:
+                    chk.divergences += 1
+                    print(f"DIVERGENCE property=C12 cache events not explained by Trace_Cache.tla ({p['kind']} {p['name']}): {json.dumps(ctx)[:700]}")
+    finally:
+        lib.rmtree(tdir)
     chk.cov["evaluations"] = sum(r["compared"] for r in results)
     chk.cov["traces_validated_against_impl"] = sum(r["compared"] for r in results)
     chk.cov["distinct_nontrivial"] = sum(1 for r in results if r["hits"] > 0)
@@ -238,6 +311,8 @@ def main(tier):
                        "(inode reuse) and tmpfs, with a persistent private cache; edits: create, modify (+1 ms / same ms bumped), other length with kept mtime, older mtime, append, "
                        "truncate, rename, delete+recreate, hard link, swap, delete; configuration switches between runs (hash function, transform program arguments, prefix/suffix "
                        "sizes, device kind, filter); interrupted cached runs; non-trivial = history with at least one cache hit")
+    for r in results:
+        r.pop("trace", None)
     chk.sample({"history": results[0]["steps"], "cache_hits": results[0]["hits"]})
     if hits == 0 and not chk.violations:
         raise lib.ToolError("vacuity: the cache was never hit")
